@@ -9,11 +9,11 @@ Open Scope N_scope.
 Definition REFRESH_INTERVAL : Z := Z.of_N P_REFRESH_TABLE_INTERVAL_MS.
 Definition PING_INTERVAL : Z := Z.of_N P_PING_TABLE_INTERVAL_MS.
 
-Record maint := { mt_rt : rtable; mt_refresh : Z; mt_ping : Z }.
+Record maint := { mt_rt : rtable; mt_srt : rtable; mt_refresh : Z; mt_ping : Z }.
 
-Definition mt_new (self : id) (now : Z) : maint := {| mt_rt := rt_new self; mt_refresh := now; mt_ping := now |}.
+Definition mt_new (self : id) (now : Z) : maint := {| mt_rt := rt_new self; mt_srt := rt_new self; mt_refresh := now; mt_ping := now |}.
 
-(* the 5-minute round: stale nodes are removed, the others are pinged if not heard from for 10 s *)
+(* the 5-minute round on one table: stale nodes are removed, the others are pinged if not heard from for 10 s *)
 Definition ping_round (now : Z) (t : rtable) : rtable * list (N * N) :=
   let ns := rt_nodes t in
   (fold_left (fun acc n => rt_remove acc (nid n)) (filter (is_stale now) ns) t,
@@ -21,19 +21,46 @@ Definition ping_round (now : Z) (t : rtable) : rtable * list (N * N) :=
 
 Record tick_out := { o_populate : bool; o_round : bool; o_pings : list (N * N) }.
 
+(* periodic_node_maintaenance; the round runs over the main table and the signed-peers table *)
 Definition mt_maintain (m : maint) (now : Z) : maint * tick_out :=
   let empty := rt_is_empty (mt_rt m) in
   let refresh := (REFRESH_INTERVAL <? now - mt_refresh m)%Z in
   let round := (PING_INTERVAL <? now - mt_ping m)%Z in
-  let '(rt', pings) := if round then ping_round now (mt_rt m) else (mt_rt m, []) in
-  ({| mt_rt := rt'; mt_refresh := if refresh then now else mt_refresh m; mt_ping := if round then now else mt_ping m |},
-   {| o_populate := empty || refresh; o_round := round; o_pings := pings |}).
+  ({| mt_rt := if round then fst (ping_round now (mt_rt m)) else mt_rt m;
+      mt_srt := if round then fst (ping_round now (mt_srt m)) else mt_srt m;
+      mt_refresh := if refresh then now else mt_refresh m;
+      mt_ping := if round then now else mt_ping m |},
+   {| o_populate := empty || refresh; o_round := round;
+      o_pings := if round then snd (ping_round now (mt_rt m)) ++ snd (ping_round now (mt_srt m)) else [] |}).
 
-(* an expected response from (id, ip, port) is processed: its sender is (re-)added, seen now *)
-Definition mt_response (m : maint) (now : Z) (who : id * N * N) : maint :=
+(* an expected response from (id, ip, port) is processed: its sender is (re-)added, seen now — to the
+   signed-peers table as well if its version announces support *)
+Definition mt_response (m : maint) (now : Z) (who : id * N * N) (rs06 : bool) : maint :=
   let '(i, ip, port) := who in
-  {| mt_rt := fst (rt_add now (mt_rt m) (mk_node i ip port None now)); mt_refresh := mt_refresh m; mt_ping := mt_ping m |}.
+  let n := mk_node i ip port None now in
+  {| mt_rt := fst (rt_add now (mt_rt m) n);
+     mt_srt := if rs06 then fst (rt_add now (mt_srt m) n) else mt_srt m;
+     mt_refresh := mt_refresh m; mt_ping := mt_ping m |}.
 
-Definition mt_tick (m : maint) (now : Z) (resp : option (id * N * N)) : maint * tick_out :=
-  let '(m1, o) := mt_maintain m now in
-  (match resp with Some w => mt_response m1 now w | None => m1 end, o).
+(* a find_node request from a requester that is not read-only reaches a node in server mode
+   (Core::maybe_add_node_from_request): the requester, under the id it looks for, enters the main table
+   only on a node without bootstrap nodes, and the signed-peers table if it supports it *)
+Definition mt_request (m : maint) (now : Z) (who : id * N * N) (rs06 bootstrap_empty : bool) : maint :=
+  let '(i, ip, port) := who in
+  let n := mk_node i ip port None now in
+  {| mt_rt := if bootstrap_empty then fst (rt_add now (mt_rt m) n) else mt_rt m;
+     mt_srt := if rs06 then fst (rt_add now (mt_srt m) n) else mt_srt m;
+     mt_refresh := mt_refresh m; mt_ping := mt_ping m |}.
+
+Inductive tick_in :=
+| INone
+| IResp (who : id * N * N) (rs06 : bool)
+| IReq (who : id * N * N) (rs06 : bool) (bootstrap_empty : bool).   (* counted find_node request, see mt_request *)
+
+Definition mt_tick (m : maint) (now : Z) (inp : tick_in) : maint * tick_out :=
+  let m1 := fst (mt_maintain m now) in
+  (match inp with
+   | INone => m1
+   | IResp w v => mt_response m1 now w v
+   | IReq w v be => mt_request m1 now w v be
+   end, snd (mt_maintain m now)).
